@@ -43,7 +43,7 @@ fn udp_config(uring: bool, max_response_peers: usize, max_scrape_torrents: u8, v
     let backend = if uring { "io_uring" } else { "mio" };
     let cfg = json!({"socket_workers": 1, "network": {"use_io_uring": uring}, "protocol": {"max_response_peers": max_response_peers, "max_scrape_torrents": max_scrape_torrents}});
     let mut t = TrackerChild::spawn("udp", cfg.clone(), &[]);
-    if !t.wait_ready(10) {
+    if !t.wait_ready(30) {
         // refused at start-up: acceptable outcome
         let line = t.line_with("RUN-RETURNED").unwrap_or_default();
         if t.exited().is_some() && line.contains("RUN-RETURNED Err") {
@@ -135,7 +135,7 @@ fn http_config(max_peers: usize, max_scrape_torrents: usize, v4: bool, default_c
     let mut f = Vec::new();
     let cfg = if default_cfg { json!({}) } else { json!({"protocol": {"max_peers": max_peers, "max_scrape_torrents": max_scrape_torrents}}) };
     let mut t = TrackerChild::spawn("http", cfg.clone(), &[]);
-    if !t.wait_ready(10) {
+    if !t.wait_ready(30) {
         let line = t.line_with("RUN-RETURNED").unwrap_or_default();
         if t.exited().is_some() && line.contains("RUN-RETURNED Err") {
             return (1, f, format!("refused: {}", line));
@@ -144,6 +144,9 @@ fn http_config(max_peers: usize, max_scrape_torrents: usize, v4: bool, default_c
     }
     let ip: IpAddr = if v4 { IpAddr::V4(Ipv4Addr::LOCALHOST) } else { IpAddr::V6(Ipv6Addr::LOCALHOST) };
     let addr = SocketAddr::new(ip, t.port);
+    if !wait_tcp(addr, 8) {
+        machinery_failure("http tracker does not accept connections on the family under test");
+    }
     let fam = if v4 { "ipv4" } else { "ipv6" };
     let mut cases = 0;
     let rt = |conn: &mut Option<HttpConn>, req: &[u8]| -> Result<HttpReply, HttpErr> {
@@ -215,7 +218,14 @@ fn http_config(max_peers: usize, max_scrape_torrents: usize, v4: bool, default_c
             }
             other => {
                 // control: identical length, two hashes, the rest padding in an ignored parameter
-                let pad = req.len() - http_get("/scrape?info_hash=00000000000000000000&info_hash=00000000000000000001&pad=", "").len();
+                let base_len = http_get("/scrape?info_hash=00000000000000000000&info_hash=00000000000000000001&pad=", "").len();
+                if req.len() < base_len {
+                    // a one- or two-hash scrape must always be answered
+                    f.push(Finding { sig: "http/small-scrape-unanswered".into(), what: format!("scrape of {} hashes not answered: {:?}", n, other.err()), detail: json!({"config": cfg}) });
+                    n += 1;
+                    continue;
+                }
+                let pad = req.len() - base_len;
                 let cpath = format!("/scrape?info_hash=00000000000000000000&info_hash=00000000000000000001&pad={}", "p".repeat(pad));
                 let creq = http_get(&cpath, "");
                 assert_eq!(creq.len(), req.len());
